@@ -32,6 +32,10 @@ import (
 
 const c27NodeNames = "sabcd" // s = the table's own node
 
+// hop limit of the run: the longest regular menu paths (abac, bacd) have exactly MaxTTL items,
+// the 3-item paths MaxTTL-1, "sbacd" MaxTTL+1
+const c27MaxTTL = 4
+
 func c27Addr(i int) boson.Address {
 	b := make([]byte, 32)
 	for k := range b {
@@ -76,15 +80,16 @@ func c27Names(as []boson.Address) string {
 
 // the path menu (node letters, origin first, last = the neighbour that handed the path over)
 var c27Menu = []string{
-	"ab",   // 0
-	"ac",   // 1
-	"ad",   // 2  (three different next hops for target a -> cap with alpha 1 and 2)
-	"acb",  // 3  same next hop as 0 for target a, other path; target c
-	"cad",  // 4  targets c,a
-	"abac", // 5  repeated node
-	"asb",  // 6  contains the table's own node
-	"bacd", // 7  length 4; targets b,a,c (third route for c)
-	"b",    // 8  too short: must be ignored
+	"ab",    // 0
+	"ac",    // 1
+	"ad",    // 2  (three different next hops for target a -> cap with alpha 1 and 2)
+	"acb",   // 3  same next hop as 0 for target a, other path; target c
+	"cad",   // 4  targets c,a
+	"abac",  // 5  repeated node
+	"asb",   // 6  contains the table's own node
+	"bacd",  // 7  length 4; targets b,a,c (third route for c)
+	"b",     // 8  too short: must be ignored
+	"sbacd", // 9  MaxTTL+1 items: the receiving handlers (route.go) never hand it to the table
 }
 
 func c27Items(spec string) []boson.Address {
@@ -185,6 +190,35 @@ var c27KeyName = func() map[common.Hash]string {
 	return m
 }()
 
+// c27SafeStore keeps the harness from blocking: statestore/mock's Iterate holds its read lock
+// while the callback runs, so a Delete issued from inside the callback (ResumePaths/ResumeRoutes
+// drop undecodable or over-long records that way) would dead-lock. The deletes are applied
+// right after the iteration instead - the behaviour of the leveldb state store.
+type c27SafeStore struct {
+	storage.StateStorer
+	iterating bool
+	deferred  []string
+}
+
+func (s *c27SafeStore) Iterate(prefix string, fn storage.StateIterFunc) error {
+	s.iterating = true
+	err := s.StateStorer.Iterate(prefix, fn)
+	s.iterating = false
+	for _, k := range s.deferred {
+		_ = s.StateStorer.Delete(k)
+	}
+	s.deferred = nil
+	return err
+}
+
+func (s *c27SafeStore) Delete(key string) error {
+	if s.iterating {
+		s.deferred = append(s.deferred, key)
+		return nil
+	}
+	return s.StateStorer.Delete(key)
+}
+
 func c27Old(p *Path) bool { return time.Since(p.UsedTime) > c27Mid }
 
 // c27Canon dumps everything that can influence future behaviour: the in-memory
@@ -284,11 +318,18 @@ func c27Oracle(x *mc.X, tab *Table, m *c27Model, alpha int, reloaded bool, when 
 				x.Fail("returned-deleted-or-expired-path"+sfx, "%s: Get(%s) returned path %s which was deleted/expired (live: [%s])", when, tn, spec, m)
 			}
 		}
-		// which next hops are backed by a stored path containing the target before its last hop
-		var backed [len(c27NodeNames)]bool
+		// which next hops are backed by a stored path containing the target before its last hop:
+		// the path must be live in the reference AND really be stored, i.e. be among the paths the
+		// table itself returns for the target (just validated above)
+		var backed, modelBacked [len(c27NodeNames)]bool
 		for i, ms := range c27Menu {
 			if m.live[i] && c27TargetBeforeLast(ms, t) {
-				backed[strings.IndexByte(c27NodeNames, ms[len(ms)-1])] = true
+				modelBacked[strings.IndexByte(c27NodeNames, ms[len(ms)-1])] = true
+			}
+		}
+		for _, p := range got {
+			if h := c27NodeIdx(p.Items[len(p.Items)-1]); h >= 0 && modelBacked[h] {
+				backed[h] = true
 			}
 		}
 		// all skip lists over {a,b,c,d}
@@ -341,7 +382,7 @@ func c27Ops() []c27Op {
 		ops = append(ops, c27Op{kind: "save", arg: i})
 	}
 	for i, ms := range c27Menu {
-		if len(ms) >= 2 {
+		if len(ms) >= 2 && len(ms) <= c27MaxTTL {
 			ops = append(ops, c27Op{kind: "delete", arg: i})
 		}
 	}
@@ -412,11 +453,11 @@ func c27Run(t *testing.T, name string, useLdb bool, depth int) {
 		"depth": depth, "alpha": alphas, "nodes": "s(self) a b c d", "path_menu": c27Menu, "ops": opNames,
 		"observed_every_state": "Get(t) for all 5 nodes; GetNextHop(t, skips) for all 5 nodes x all 16 skip subsets of {a,b,c,d}",
 		"clock":                "tick = all in-memory and persisted timestamps shifted 2h into the past; gc-old = Gc(1h); gc-all = Gc(-1h)",
-		"store":                storeName, "max_ttl": 10}},
+		"store":                storeName, "max_ttl": c27MaxTTL}},
 		func(x *mc.X) {
 			alpha := alphas[x.Choose(len(alphas))]
 			NeighborAlpha = int32(alpha)
-			atomic.StoreInt32(&MaxTTL, 10)
+			atomic.StoreInt32(&MaxTTL, c27MaxTTL)
 			var store storage.StateStorer
 			if useLdb {
 				// opening/closing an in-memory leveldb costs ~70 ms and deleted keys
@@ -435,7 +476,7 @@ func c27Run(t *testing.T, name string, useLdb bool, depth int) {
 				c27Wipe(x, ldb)
 				store = ldb
 			} else {
-				store = mockstate.NewStateStore()
+				store = &c27SafeStore{StateStorer: mockstate.NewStateStore()}
 			}
 			self := c27Nodes[0]
 			tab := newRouteTable(self, store)
@@ -450,6 +491,15 @@ func c27Run(t *testing.T, name string, useLdb bool, depth int) {
 				switch op.kind {
 				case "save":
 					spec := c27Menu[op.arg]
+					if len(spec) > c27MaxTTL {
+						// onRouteReq / onRouteResp discard paths with more than MaxTTL items before
+						// Table.SavePaths is called ("paths received from peers" never include them)
+						x.Tag("over-long-path-discarded-by-receiver-rule")
+						break
+					}
+					if len(spec) == c27MaxTTL {
+						x.Tag("save-path-with-exactly-maxttl-items")
+					}
 					// does this save hit the cap branch for some target?
 					if len(spec) >= 2 {
 						for k := 0; k < len(spec)-1; k++ {
